@@ -1270,6 +1270,74 @@ impl<B> RequestBuilder<B> {
 //@@ end
 
 }
+impl<B> RequestBuilder<B> {
+//@@ fn src/request/builder.rs impl<B>~RequestBuilder<B> text props=C07,C16
+//@@ sigrw R11
+RequestBuilder<body::Text<B1>>
+//@@ =>
+RequestBuilder<Text<B1>>
+//@@ rw R1
+self.headers
+            .entry(http::header::CONTENT_TYPE)
+            .or_insert(HeaderValue::from_static(@@1))
+//@@ =>
+vp_entry_or_insert(&mut self.headers, vp_hn_content_type(), vp_hv_from_static(@@1))
+//@@ rw R11
+body::Text(
+//@@ =>
+Text(
+//@@ contract
+        ensures
+            res.sp_body().0 == body, // id: text_setter_takes_the_given_body [C07]
+            res.sp_settings() == self.sp_settings() && res.sp_url() == self.sp_url() && res.sp_method() == self.sp_method(), // id: text_setter_keeps_the_rest_of_the_request [C16]
+            field_vals(&self.sp_headers(), ctype_name()).len() > 0 ==> hm_view(&res.sp_headers()) == hm_view(&self.sp_headers()), // id: callers_content_type_is_kept [C07,C16]
+            field_vals(&self.sp_headers(), ctype_name()).len() == 0 ==> exists|v: HeaderValue| hm_view(&res.sp_headers()) == hm_view(&self.sp_headers()).push((ctype_name(), v)), // id: content_type_default_only_when_unset [C07,C16]
+//@@ end
+//@@ fn src/request/builder.rs impl<B>~RequestBuilder<B> bytes props=C07,C16
+//@@ sigrw R11
+RequestBuilder<body::Bytes<B1>>
+//@@ =>
+RequestBuilder<Bytes<B1>>
+//@@ rw R1
+self.headers
+            .entry(http::header::CONTENT_TYPE)
+            .or_insert(HeaderValue::from_static(@@1))
+//@@ =>
+vp_entry_or_insert(&mut self.headers, vp_hn_content_type(), vp_hv_from_static(@@1))
+//@@ rw R11
+body::Bytes(
+//@@ =>
+Bytes(
+//@@ contract
+        ensures
+            res.sp_body().0 == body, // id: bytes_setter_takes_the_given_body [C07]
+            res.sp_settings() == self.sp_settings() && res.sp_url() == self.sp_url() && res.sp_method() == self.sp_method(), // id: bytes_setter_keeps_the_rest_of_the_request [C16]
+            field_vals(&self.sp_headers(), ctype_name()).len() > 0 ==> hm_view(&res.sp_headers()) == hm_view(&self.sp_headers()), // id: callers_content_type_is_kept [C07,C16]
+            field_vals(&self.sp_headers(), ctype_name()).len() == 0 ==> exists|v: HeaderValue| hm_view(&res.sp_headers()) == hm_view(&self.sp_headers()).push((ctype_name(), v)), // id: content_type_default_only_when_unset [C07,C16]
+//@@ end
+//@@ fn src/request/builder.rs impl<B>~RequestBuilder<B> file props=C07,C16
+//@@ sigrw R11
+RequestBuilder<body::File>
+//@@ =>
+RequestBuilder<File>
+//@@ rw R1
+self.headers
+            .entry(http::header::CONTENT_TYPE)
+            .or_insert(HeaderValue::from_static(@@1))
+//@@ =>
+vp_entry_or_insert(&mut self.headers, vp_hn_content_type(), vp_hv_from_static(@@1))
+//@@ rw R11
+body::File(
+//@@ =>
+File(
+//@@ contract
+        ensures
+            res.sp_body().0 == body, // id: file_setter_takes_the_given_body [C07]
+            res.sp_settings() == self.sp_settings() && res.sp_url() == self.sp_url() && res.sp_method() == self.sp_method(), // id: file_setter_keeps_the_rest_of_the_request [C16]
+            field_vals(&self.sp_headers(), ctype_name()).len() > 0 ==> hm_view(&res.sp_headers()) == hm_view(&self.sp_headers()), // id: callers_content_type_is_kept [C07,C16]
+            field_vals(&self.sp_headers(), ctype_name()).len() == 0 ==> exists|v: HeaderValue| hm_view(&res.sp_headers()) == hm_view(&self.sp_headers()).push((ctype_name(), v)), // id: content_type_default_only_when_unset [C07,C16]
+//@@ end
+}
 /// `r.expect(msg)`: hands the value out when `r` is Ok and panics otherwise (a panic is not a return, so nothing is claimed for it)
 #[verifier::external_body] pub fn vp_expect_ok<T>(r: Result<T>, msg: &str) -> (t: T) ensures r matches Ok(v) && v == t { r.expect(msg) }
 impl<B: Body> RequestBuilder<B> {
